@@ -314,3 +314,6 @@ func vIsOpen(id string) bool { return false }
 func vRecord(name string, b []byte) {
 	fmt.Printf("REPLAY-RECORD %s %x\n", name, b)
 }
+
+// vSameState: deep equality of two object graphs including unexported fields (natively reflect.DeepEqual).
+func vSameState(a, b interface{}) bool { return reflect.DeepEqual(a, b) }
